@@ -208,6 +208,8 @@ type Prop[C any] struct {
 	// listed known finding; such cases are excluded from the random search by
 	// construction and counted.
 	Matchers map[string]func(c C) bool
+	// Filter selects which files under replay/<ID>/ belong to this Prop (nil: all).
+	Filter func(path string) bool
 }
 
 // SafeCheck runs Check and turns any panic into a Fail (ErrNaN panics that the
@@ -341,6 +343,15 @@ func (p *Prop[C]) Replay(t *testing.T) {
 	} else {
 		files, _ = filepath.Glob(filepath.Join(VerifDir(), "replay", p.ID, "*.json"))
 		sort.Strings(files)
+	}
+	if p.Filter != nil {
+		var keep []string
+		for _, f := range files {
+			if p.Filter(f) {
+				keep = append(keep, f)
+			}
+		}
+		files = keep
 	}
 	for _, path := range files {
 		c, err := LoadCase[C](path)
